@@ -50,6 +50,9 @@ pub enum Op {
     DropForceGuard,
     /// poll wait_for_data on slot 1 once (through the owner)
     PollWait1,
+    /// await wait_for_data on slot 1 to completion (a real waker) while another thread, after a
+    /// generated delay, drops the guard: pending -> woken by the drop -> ready
+    AwaitWait1DropOnThread(u8),
     DropParent,
     /// SlotGuard::delay_flush on slot 1's guard with a fresh flush guard of the parent: the
     /// second public way into wait mode (and the only way to REPLACE a held flush guard)
@@ -254,6 +257,37 @@ pub fn check(case: &Case) -> CaseResult {
                         // the pending future is dropped here (a cancelled wait, e.g. a timeout)
                         drop(fut);
                     }
+                }
+            }
+            Op::AwaitWait1DropOnThread(delay) => {
+                if let (Some(p), true, false) = (parent.as_mut(), m1.opened.is_some() && g1.is_some(), was) {
+                    let g = g1.take().unwrap();
+                    m1.guard_alive = false;
+                    m1.returned = Some(m1.value);
+                    let got = std::thread::scope(|s| {
+                        s.spawn(move || {
+                            crate::bq::jitter(delay);
+                            if delay % 3 == 0 {
+                                std::thread::sleep(std::time::Duration::from_micros(delay as u64 * 4));
+                            }
+                            drop(g);
+                        });
+                        crate::bq::block_on_timeout(p.s1.wait_for_data(), std::time::Duration::from_secs(10))
+                    });
+                    let Some(v) = got else {
+                        vfail!(
+                            "slot:wait-for-data-not-ready",
+                            "wait_for_data awaited with a real waker never completed although another thread dropped the guard"
+                        );
+                    };
+                    let v = v.as_ref().map(|c| c.c1);
+                    vensure!(
+                        v == m1.returned,
+                        "slot:wait-for-data-wrong-value",
+                        "wait_for_data (woken by a guard drop on another thread) yielded {v:?}, the guard was dropped with {:?}",
+                        m1.returned
+                    );
+                    classes.push("wait-for-data-awaited-across-threads");
                 }
             }
             Op::DelayFlush1 => {
@@ -539,6 +573,7 @@ pub fn arb_op() -> impl Strategy<Value = Op> {
         1 => Just(Op::NewForceGuard),
         1 => Just(Op::DropForceGuard),
         1 => Just(Op::PollWait1),
+        1 => any::<u8>().prop_map(Op::AwaitWait1DropOnThread),
         2 => Just(Op::DropParent),
         1 => Just(Op::DelayFlush1),
         1 => Just(Op::OpenDeprecated1),
@@ -681,7 +716,7 @@ pub fn run(ctx: &mut Ctx) {
         .mandatory(&["tokio-budget-exhausted", "wait-mode", "discard-mode"]),
         || {
             prop::collection::vec(arb_op(), 0..30).prop_map(|mut ops| {
-                ops.retain(|o| !matches!(o, Op::PollWait1));
+                ops.retain(|o| !matches!(o, Op::PollWait1 | Op::AwaitWait1DropOnThread(_)));
                 Case {
                     ops,
                     concurrent: false,
@@ -710,7 +745,7 @@ pub fn run(ctx: &mut Ctx) {
                 prop::collection::vec(any::<u8>(), 0..3),
             )
                 .prop_map(|(mut ops, order, jitter)| {
-                    ops.retain(|o| !matches!(o, Op::DropParent | Op::PollWait1 | Op::DropGuard1 | Op::DropGuard2 | Op::IntoHandle(_)));
+                    ops.retain(|o| !matches!(o, Op::DropParent | Op::PollWait1 | Op::AwaitWait1DropOnThread(_) | Op::DropGuard1 | Op::DropGuard2 | Op::IntoHandle(_)));
                     ops.insert(0, Op::Open1(Mode::Wait));
                     Case {
                         ops,
